@@ -576,6 +576,22 @@ impl BitSet {
     }
 }
 
+#[cfg(googlefonts_fontations_verif)]
+impl BitSet {
+    /// Verification hook (H2): the raw representation as
+    /// (page_map as (major, index) pairs, per-physical-page popcounts, cached length).
+    pub(crate) fn verif_repr(&self) -> (Vec<(u32, u32)>, Vec<u32>, u64) {
+        (
+            self.page_map
+                .iter()
+                .map(|info| (info.major_value, info.index))
+                .collect(),
+            self.pages.iter().map(|page| page.len()).collect(),
+            self.length,
+        )
+    }
+}
+
 impl Extend<u32> for BitSet {
     fn extend<U: IntoIterator<Item = u32>>(&mut self, iter: U) {
         let mut builder = BitSetBuilder::start(self);
